@@ -1,9 +1,10 @@
 import Driver.Core
 import Driver.Formats
 import Driver.Filter
+import Driver.Block
 open Lcdb Drv
 
-def handlers : List (List String → String) := [handleCore, handleFormats, handleFilter]
+def handlers : List (List String → String) := [handleCore, handleFormats, handleFilter, handleBlock]
 
 def handle (line : String) : String :=
   let f := line.trimAscii.toString.splitOn " "
